@@ -2123,59 +2123,54 @@ func ruleG50(r *Run) {
 			if !ok || fd.Body == nil {
 				continue
 			}
-			// the context handed to InvokeContext
-			var ctxVar types.Object
-			ast.Inspect(fd.Body, func(m ast.Node) bool {
-				if c, ok := m.(*ast.CallExpr); ok && refName(methodName(c)) == "InvokeContext" && len(c.Args) > 0 {
-					if o := identObj(info, c.Args[0]); o != nil {
-						ctxVar = o
-					}
-				}
-				return true
-			})
-			if ctxVar == nil {
-				continue
-			}
 			ast.Inspect(fd.Body, func(m ast.Node) bool {
 				ts, ok := m.(*ast.TypeSwitchStmt)
 				if !ok {
 					return true
 				}
+				// the switch over the first proxy argument: clauses for context.Context AND for *ClientContext
+				var ctxClause *ast.CaseClause
+				hasCC := false
 				for _, cs := range ts.Body.List {
 					cc := cs.(*ast.CaseClause)
-					isCtx := false
 					for _, e := range cc.List {
-						if tv, ok := info.Types[e]; ok && tv.Type != nil && tv.Type.String() == "context.Context" {
-							isCtx = true
-						}
-					}
-					if !isCtx {
-						continue
-					}
-					n++
-					key := "context argument of a proxy call in " + p.DeclName(fd)
-					// the clause variable
-					cv := info.Implicits[cc]
-					uncond := false
-					for _, s := range cc.Body {
-						if as, ok := s.(*ast.AssignStmt); ok {
-							for i, l := range as.Lhs {
-								if identObj(info, l) == ctxVar && i < len(as.Rhs) {
-									if cv == nil || identObj(info, as.Rhs[i]) == cv {
-										uncond = true
-									}
-								}
+						if tv, ok := info.Types[e]; ok && tv.Type != nil {
+							switch {
+							case tv.Type.String() == "context.Context":
+								ctxClause = cc
+							case strings.HasSuffix(tv.Type.String(), "core.ClientContext"):
+								hasCC = true
 							}
 						}
 					}
-					r.Check(uncond, key, cc.Pos(), "the clause assigns the context unconditionally", "the context.Context clause does not assign the caller's context to "+ctxVar.Name()+" as a statement of its own: on some path the call runs on context.Background() and the caller's cancellation and deadline are ignored")
 				}
+				if ctxClause == nil || !hasCC {
+					return true
+				}
+				n++
+				key := "context argument of a proxy call in " + p.DeclName(fd)
+				cv := info.Implicits[ctxClause]
+				uncond := false
+				for _, s := range ctxClause.Body {
+					if as, ok := s.(*ast.AssignStmt); ok {
+						for i, l := range as.Lhs {
+							lo := identObj(info, l)
+							if lo == nil || i >= len(as.Rhs) || lo.Type().String() != "context.Context" {
+								continue
+							}
+							if cv != nil && identObj(info, as.Rhs[i]) == cv {
+								uncond = true
+							}
+						}
+					}
+				}
+				r.Check(uncond, key, ctxClause.Pos(), "the clause assigns the context unconditionally", "the context.Context clause does not assign the caller's context to the call's context variable as a statement of its own: on some path the call runs on context.Background() and the caller's cancellation and deadline are ignored")
 				return true
 			})
 		}
 	}
 	if n == 0 {
-		r.Undec("proxy argument handling in rpc/core", 0, "no type switch with a context.Context clause in a function that calls InvokeContext")
+		r.Undec("proxy argument handling in rpc/core", 0, "no type switch with clauses for context.Context and *ClientContext found")
 	}
 }
 
